@@ -506,6 +506,45 @@ def check_rulebook(model, soft, vendor, v, stats):
 
 
 # ---------------------------------------------------------------------------------------------------
+def check_incremental(model, soft, vv, stats):
+    """vendors registered one after the other into the registry annet is using (late plugin imports), the model's vendor
+    asked for through the production entry points after every registration: the answer must be what the registry holds
+    at that moment, whatever was asked before"""
+    from annet.annlib.netdev.views.hardware import HardwareView
+    from annet.hardware import hardware_connector
+    from annet.vendors import registry_connector
+    from annet.vendors.registry import Registry
+    real = registry_connector.get()
+    names = list(real.vendors)
+    hw0 = HardwareView(model, soft)
+    matching = [n for n in names if real.vendors[n].match() and any(hw0.match(expr) for expr in real.vendors[n].match())]
+    others = [n for n in names if n not in matching]
+    orders = []
+    for perm in itertools.permutations(sorted(matching)[:3]):
+        orders.append(list(others[:2]) + list(perm) + list(others[2:4]))
+    if not orders:
+        orders = [names[:4]]
+    saved = registry_connector._classes
+    try:
+        for order in orders:
+            r = Registry()
+            registry_connector._classes = [lambda r=r: r]
+            for step, name in enumerate(order):
+                r.register(type(real.vendors[name]))
+                hw = HardwareView(model, soft)
+                want = vendor_name(r.match(hw, None))
+                got = {"hw.vendor": hw.vendor, "hw_to_vendor": hardware_connector.get().hw_to_vendor(hw)}
+                stats["evals"] += 3
+                stats["incremental_registrations"] += 1
+                bad = {k: x for k, x in got.items() if x != want}
+                if bad:
+                    vv({"kind": "vendor-stale-after-registration", "which": sorted(bad)},
+                       "model %r: after registering %r the registry says %r but %r" % (model, order[:step + 1], want, bad))
+                    return
+    finally:
+        registry_connector._classes = saved
+
+
 def check_case(model, soft, targets, v, stats):
     """the whole property on one (model, soft); -> (outcome label, nontrivial)"""
     from annet.annlib.netdev.views.hardware import HardwareView
@@ -519,6 +558,8 @@ def check_case(model, soft, targets, v, stats):
     hw = HardwareView(model, soft)
     true_ref, depth = check_hardware(hw, model, vv, stats)
     vendor = check_vendor(hw, model, soft, true_ref, vv, stats)
+    if not soft:
+        check_incremental(model, soft, vv, stats)
     if vendor is None:
         try:
             load(model, soft, True)
